@@ -28,6 +28,12 @@ PEERS = {
     "lo4-longer": ("127.0.0.10", 41004),
     "ext-shorter": ("10.9.8", 41005),
     "ext6": ("2001:db8::5", 41006, 0, 0),          # an IPv6 peer (4-tuple) that no allow list names
+    # ... or that *end* with the text of a listed one, as peers of a dual-stack listener (IPv4-mapped) or as plain addresses
+    "ext-mapped-suffix": ("::ffff:110.9.8.7", 41007, 0, 0),
+    "ext-suffix": ("210.9.8.7", 41008),
+    "lo6-suffix": ("2001:db8::1", 41009, 0, 0),
+    "lo6-longer": ("::1:0", 41010, 0, 0),
+    "lo4-mapped-suffix": ("::ffff:227.0.0.1", 41011, 0, 0),
 }
 ALLOW = ["127.0.0.1,::1", "*", "10.9.8.7", ""]
 FWD_HEADERS = ["SCRIPT_NAME,PATH_INFO", "*", "", "X_CUSTOM,REMOTE_USER"]
